@@ -402,8 +402,13 @@ def make_case(rng):
     r = rng.random()
     if r < 0.6:
         family = "L"
-        spec, meta = F.family_L(rng, unit_root=bool(rng.random() < 0.3), measurement=True)
+        ur = bool(rng.random() < 0.3)
+        spec, meta = F.family_L(rng, unit_root=ur, measurement=True, persistent=(not ur and rng.random() < 0.25), forward_share=0.3)
         steady = None
+        if "ar-persistent" in meta["types"]:
+            i = meta["types"].index("ar-persistent")
+            from ..oracles import expr as E
+            spec["meqs"][0]["rhs"] = E.bin_("+", spec["meqs"][0]["rhs"], E.bin_("*", E.num(0.5), E.var(spec["tvars"][i]["name"], 0)))
         if "rw" in meta["types"]:
             # make sure the random walk is observed through some measurement equation
             i = meta["types"].index("rw")
